@@ -1,6 +1,6 @@
 (* C01 — exported theorems only: each is closed by [exact] and followed by Print Assumptions. *)
 From Coq Require Import List ZArith Bool.
-From Verif Require Import Lib.Vec2 Lib.Interleave C01.Model C01.Spec C01.Proofs_Base C01.Proofs_Unique C01.Proofs_Reset C01.Proofs_Main C01.Proofs_Conc C01.Plugin C01.Proofs_Findings C01.Codec C01.Proofs_Ghost C01.Proofs_Spec.
+From Verif Require Import Lib.Vec2 Lib.Interleave C01.Model C01.Spec C01.Proofs_Base C01.Proofs_Unique C01.Proofs_Reset C01.Proofs_Main C01.Proofs_Conc C01.Plugin C01.Proofs_Findings C01.Codec C01.Proofs_Ghost C01.Proofs_Spec C01.Root C01.Proofs_Root.
 Import ListNotations.
 Open Scope Z_scope.
 
@@ -78,6 +78,41 @@ Theorem c01_shapes_check_holds : forall sm dm h,
 Proof. exact shapes_eqb_holds. Qed.
 Print Assumptions c01_shapes_check_holds.
 
+(* ---------- the root entry (koordinator-root-quota) ---------- *)
+
+(* the root entry's Request / NonPreemptibleRequest / Used / NonPreemptibleUsed equal the from-scratch
+   sums over the quotas directly under it (max-limited, min-raised requests; plain sums of the pods
+   of the subtrees) after every operation of every well-formed history along which the tree is never
+   rebuilt while system/default ask for more than their max (benign_history, boolean) *)
+Theorem c01_root_exact : forall sm dm h,
+  wf_init sm dm = true -> wf_history (init sm dm) h = true -> benign_history (init sm dm) h = true ->
+  root_code (x_s (xrun (xinit sm dm) h)) (x_root (xrun (xinit sm dm) h)) = 0 /\
+  forall x', In x' (xtrace (xinit sm dm) h) -> root_code (x_s x') (x_root x') = 0.
+Proof. exact root_exact. Qed.
+Print Assumptions c01_root_exact.
+
+Theorem c01_root_decision_sound : forall s ro, root_code s ro = 0 <-> ro = rc_root s.
+Proof. exact root_code_ok. Qed.
+Print Assumptions c01_root_decision_sound.
+
+(* the root layer never feeds back into the tree: all theorems about [run] speak about [xrun] *)
+Theorem c01_root_layer_projects : forall h x, x_s (xrun x h) = run (x_s x) h.
+Proof. exact root_layer_projects. Qed.
+Print Assumptions c01_root_layer_projects.
+
+(* without the hypothesis: ResetQuota while the default quota is max-limited leaves a phantom request
+   in the root entry for ever (findings/C01-root-reset.md) *)
+Theorem c01_root_reset_refuted :
+  wf_init (1000, 1000) (20, 20) = true /\ wf_history (init (1000, 1000) (20, 20)) ex_root_reset = true /\
+  benign_history (init (1000, 1000) (20, 20)) ex_root_reset = false /\
+  (let x := xrun (xinit (1000, 1000) (20, 20)) ex_root_reset in
+   state_code (x_s x) = 0 /\ root_code (x_s x) (x_root x) = 15 /\
+   ro_req (x_root x) = (10, 10) /\ ro_req (rc_root (x_s x)) = (0, 0)) /\
+  (let x := xrun (xinit (1000, 1000) (20, 20)) (firstn 2 ex_root_reset) in
+   ro_req (x_root x) = (30, 30) /\ ro_req (rc_root (x_s x)) = (20, 20)).
+Proof. exact root_reset_refuted. Qed.
+Print Assumptions c01_root_reset_refuted.
+
 (* ---------- concurrency ---------- *)
 
 (* the atomic sections of a pod handler, run one after the other, are the handler *)
@@ -133,6 +168,12 @@ Example c01_example_figures :
   let s := run (init (1000, 1000) (1000, 1000)) (firstn 15 ex_history) in
   (r_req (st_r s 6), r_creq (st_r s 3), u_used (st_u s 6)) = ((14, 10), (10, 6), (13, 6)).
 Proof. vm_compute. reflexivity. Qed.
+
+(* non-vacuity of the hypothesis: the example history (which rebuilds the tree twice) is benign *)
+Example c01_root_benign_nonvacuous :
+  benign_history (init (1000, 1000) (1000, 1000)) ex_history = true /\
+  ro_req (x_root (xrun (xinit (1000, 1000) (1000, 1000)) (firstn 15 ex_history))) = (14, 10).
+Proof. vm_compute. split; reflexivity. Qed.
 
 (* a genuine interleaving of three concurrent handlers (add, update with quota change, delete) *)
 Definition ex_s0 : state := run (init (1000, 1000) (1000, 1000)) (firstn 11 ex_history).
